@@ -2,7 +2,7 @@
    ExtrOcamlBasic only; Z, positive, nat stay the extracted inductive types.
    Append the functions of new formats to the list. *)
 From Coq Require Extraction ExtrOcamlBasic.
-From SV Require Import Lib.Base Model.WireBase Model.WireEth Model.WireArp Model.WireUdp.
+From SV Require Import Lib.Base Model.WireBase Model.WireEth Model.WireArp Model.WireUdp Model.WireIpv4 Model.WireIpv6.
 Extraction Language OCaml.
 Cd "../ocaml/gen".
 Extraction "wire_model.ml"
@@ -12,5 +12,11 @@ Extraction "wire_model.ml"
   arp_source_hardware_addr arp_source_protocol_addr arp_target_hardware_addr arp_target_protocol_addr
   arp_parse arp_buffer_len arp_emit arp_wf
   udp_check_len udp_src_port udp_dst_port udp_len udp_checksum udp_payload udp_verify_checksum
-  udp_parse udp_buffer_len udp_emit udp_wf.
+  udp_parse udp_buffer_len udp_emit udp_wf
+  ipv4_check_len ipv4_version ipv4_header_len ipv4_dscp ipv4_ecn ipv4_total_len ipv4_ident ipv4_dont_frag
+  ipv4_more_frags ipv4_frag_offset ipv4_hop_limit_ ipv4_next_header ipv4_checksum ipv4_src_addr ipv4_dst_addr
+  ipv4_payload ipv4_verify_checksum ipv4_parse ipv4_buffer_len ipv4_emit ipv4_wf
+  ipv6_check_len ipv6_version ipv6_traffic_class ipv6_flow_label ipv6_payload_len_ ipv6_total_len
+  ipv6_next_header ipv6_hop_limit_ ipv6_src_addr ipv6_dst_addr ipv6_payload ipv6_parse ipv6_buffer_len
+  ipv6_emit ipv6_wf.
 Cd "../../coq".
